@@ -26,6 +26,9 @@ def _child(ops_list):
     if pid == 0:
         os.close(r)
         out = []
+        import signal
+        signal.signal(signal.SIGALRM, signal.SIG_DFL)
+        signal.alarm(int(os.environ.get('VERIF_CASE_TIMEOUT', '240')))     # a hung call ends this child; reported as 'timeout'
         try:
             devnull = open(os.devnull, 'w')
             sys.stdout = devnull
@@ -48,8 +51,11 @@ def _child(ops_list):
     os.close(w)
     with os.fdopen(r) as f:
         txt = f.read()
-    os.waitpid(pid, 0)
+    _, status = os.waitpid(pid, 0)
     if not txt:
+        import signal
+        if os.WIFSIGNALED(status) and os.WTERMSIG(status) == signal.SIGALRM:
+            return [{'error': 'timeout'}] * len(ops_list)
         return [{'error': 'child died without output'}] * len(ops_list)
     return json.loads(txt)
 
